@@ -16,7 +16,13 @@ from verifkit import Infra
 
 def run(ctx):
     q = ctx.quick
+    ctx.basefee_cases = None
     if ctx.replay:
+        import json
+        if json.load(open(ctx.replay)).get("case", {}).get("kind") == "basefee":
+            rb = ctx.tlc_must_hold("rules", "MC_BlockRulesBaseFee", cfg="MC_BlockRulesBaseFee.cfg", workers=1, timeout=600)
+            ctx.basefee_cases = br.parse_basefee_cases(rb.out)
+            return run_cases(ctx, {}, basefee_only=True)
         return run_cases(ctx, {})
     # ---- 1. the catalogue itself ---------------------------------------------------------------------------------
     r = ctx.tlc_must_hold("rules", "MC_BlockRules", cfg="MC_BlockRules_quick.cfg" if q else "MC_BlockRules_thorough.cfg",
@@ -28,13 +34,17 @@ def run(ctx):
                      label="teeth: a wrong claim must be refuted")
         if tr.invariant != "Teeth_" + t:
             raise Infra("catalogue check has no teeth: Teeth_%s was not refuted (%s)" % (t, tr.error or tr.invariant or "passed"))
+    # the base-fee recurrence at real scale: properties checked by TLC, cases exported for the replay
+    rb = ctx.tlc_must_hold("rules", "MC_BlockRulesBaseFee", cfg="MC_BlockRulesBaseFee.cfg", workers=1, timeout=600,
+                           label="base-fee recurrence: real-scale boundary cases + small-scale native cross-check")
+    ctx.basefee_cases = br.parse_basefee_cases(rb.out)
     ctx.cov["catalogue_entries"] = len(spec_cat)
     ctx.cov["catalogue_teeth"] = "wrong claims refuted by TLC: " + ", ".join(teeth)
 
     run_cases(ctx, spec_cat)
 
 
-def run_cases(ctx, spec_cat):
+def run_cases(ctx, spec_cat, basefee_only=False):
     # ---- 2. real blocks -----------------------------------------------------------------------------------------
     q = ctx.quick
     seed = ctx.seed
@@ -50,10 +60,13 @@ def run_cases(ctx, spec_cat):
     mode = "both"
     if only and "-only" in only:
         mode = "catalogue"
-    events, blobs, summary, argv = br.run_driver(ctx, "main", args + ["-mode", mode, "-arb", str(120 if q else 1500)] + only,
-                                                 timeout=900 if q else 3000)
+    if basefee_only:
+        events, blobs, summary, argv, only = [], {}, {}, ["blockrules", "-mode", "basefee"], []
+    else:
+        events, blobs, summary, argv = br.run_driver(ctx, "main", args + ["-mode", mode, "-arb", str(120 if q else 1500)] + only,
+                                                     timeout=900 if q else 3000)
     cases = [e for e in events if e["e"] != "End"]
-    if not q and not only:
+    if not q and not only and not basefee_only:
         # more arbitrary input under other seeds
         for k in range(1, 4):
             ev2, bl2, sm2, _ = br.run_driver(ctx, "arb%d" % k, ["-seed", str(seed * 100 + k), "-blocks", "4", "-mode", "arb", "-arb", "2500"],
@@ -69,13 +82,32 @@ def run_cases(ctx, spec_cat):
                 cases.append(e)
             for key in ("undecodable", "decode_panics"):
                 summary[key] = summary.get(key, 0) + sm2.get(key, 0)
+    # model -> implementation replay of the base-fee cases (parent header fabricated with the case's fields)
+    nbf = 0
+    if ctx.basefee_cases and not only:
+        import json
+        import os
+        path = os.path.join(ctx.tmp("basefee"), "cases.json")
+        json.dump(ctx.basefee_cases, open(path, "w"))
+        ev3, bl3, sm3, _ = br.run_driver(ctx, "basefee", ["-seed", str(seed), "-mode", "basefee", "-cases", path], timeout=900)
+        for e in ev3:
+            if e["e"] == "End":
+                continue
+            old = e["id"]
+            e["id"] = 50_000_000 + old
+            if old in bl3:
+                blobs[e["id"]] = bl3[old]
+            cases.append(e)
+            nbf += 1
+        if sm3.get("basefee_cases") != len(ctx.basefee_cases):
+            raise Infra("base-fee replay covered %s of %d exported cases" % (sm3.get("basefee_cases"), len(ctx.basefee_cases)))
     if not cases:
         return
 
     mut = [e for e in cases if e.get("kind") == "mutant"]
     arb = [e for e in cases if e.get("kind") == "arb"]
     # catalogue coverage: the driver implements exactly the entries of the specification, each exercised at least once
-    if not only:
+    if not only and not basefee_only:
         seen = collections.Counter((e["rule"], e["var"]) for e in mut)
         missing = sorted(set(spec_cat) - set(seen))
         extra = sorted(set(seen) - set(spec_cat))
@@ -106,6 +138,11 @@ def run_cases(ctx, spec_cat):
     ctx.cov["arbitrary_verdict_decided_by_spec"] = sum(1 for e in arb if e.get("pknown") and not e.get("unknown"))
     ctx.cov["orphans"] = sum(1 for e in arb if not e.get("pknown"))
     ctx.cov["cases_accepted_by_spec"] = accepted
+    bfe = [e for e in cases if e.get("kind") == "basefee"]
+    ctx.cov["basefee_cases_exported_by_tlc"] = len(ctx.basefee_cases or [])
+    ctx.cov["basefee_children_replayed"] = nbf
+    ctx.cov["basefee_protocol_value_accepted"] = sum(1 for e in bfe if e["var"] == "protocol" and e["fresh"] == "accept")
+    ctx.cov["basefee_divide_first_value_rejected"] = sum(1 for e in bfe if e["var"] == "divide_first" and e["fresh"] == "reject")
     classes = collections.Counter()
     for e in mut:
         if e["fresh"] == "reject":
@@ -117,6 +154,8 @@ def run_cases(ctx, spec_cat):
                                           "best", "err")})
     ctx.assumptions += [
         "signature recovery, VRF verification and merkle roots are trusted library verdicts (injective oracles)",
+        "base-fee replay: the parent header is fabricated (number 0, genesis state) with the exported gas limit / gas used / base fee; "
+        "children are fully valid, so consensus.Process accepts exactly the specification's value",
         "slot ownership and expected score come from the scheduler package on the parent state (C05's subject), not from consensus",
         "re-execution results come from the runtime on a pre-state transcribed from the proposing side; it reproduces every base block",
         "'not in the future' is excluded from mutation (depends on the clock); blocked origins (BLOCKLIST) are not exercised: no keys",
